@@ -255,18 +255,18 @@ def obligations(tier):
                   bound="connected by call e+A+4")
     for who in ("Client", "Patron", "Stack"):
         out.append(Ob("%s/fail" % who, h, dict(who=who, scenario="fail", N=N, A=A, D_=D_, Tmax=Tmax, umax=umax),
-                      budget=600 if quick else 1800, covers=["deadline-inside-schedule", "reconnected", "reopened"],
+                      budget=600 if quick else 3600, covers=["deadline-inside-schedule", "reconnected", "reopened"],
                       bounds=bounds))
         if who != "Client":
             for idle in range(3):
                 out.append(Ob("%s/loss-idle%d" % (who, idle), h,
                               dict(who=who, scenario="loss", N=N, A=A, D_=D_, Tmax=Tmax, umax=umax, idle=idle),
-                              budget=600 if quick else 1800,
+                              budget=600 if quick else 3600,
                               covers=["deadline-inside-schedule", "reconnected", "reopened"],
                               bounds=dict(bounds, time_since_timer_restart=["0", "T//2", "T+1"][idle])))
         out.append(Ob("%s/noreopen" % who, h, dict(who=who, scenario="noreopen", N=3 if quick else 5, A=A, D_=D_,
                                                   Tmax=Tmax, umax=0),
-                      budget=300 if quick else 900, covers=["noreopen"],
+                      budget=300 if quick else 1800, covers=["noreopen"],
                       bounds=dict(service_calls_after_cutoff=3 if quick else 5, delta="0..%d" % Tmax,
                                   timeout=bounds["timeout"])))
     return out
